@@ -61,10 +61,21 @@ class Lex:
     def is_int(text):
         return Lex._INT.match(text) is not None
 
+    # Members of TokenTypes that classify tokens and are not keywords of the
+    # language.
+    _NOT_KEYWORDS = (
+        TokenTypes.COMPARE, TokenTypes.EOF, TokenTypes.ERROR,
+        TokenTypes.LITERAL_STRING, TokenTypes.MARK, TokenTypes.NAME,
+        TokenTypes.NULL, TokenTypes.NUMBER, TokenTypes.REGISTER,
+        TokenTypes.SYNTAX_ERROR, TokenTypes.TIME_PATTERN, TokenTypes.UNKNOWN)
+
     def _token_type(self, word):
-        token_type = TokenTypes.__members__.get(word.upper())
-        if token_type is not None:
-            return token_type
+        # Keywords are lower case; names are case-sensitive.
+        if word == word.lower():
+            token_type = TokenTypes.__members__.get(word.upper())
+            if (token_type is not None
+                    and token_type not in self._NOT_KEYWORDS):
+                return token_type
         if word in self._REG_LIST:
             return TokenTypes.REGISTER
         pairs = (
